@@ -274,3 +274,160 @@ def _gen(repo):
 
 
 EXTRACTORS = {"adapter_flags": ("AdapterFlags.lean", _gen)}
+
+
+# ---------------------------------------------------------------------------------------------------
+# view glue: the reference forwarding impls and the default bulk methods, as generated tables
+#
+# `graph_mut(g)` wraps a `&mut D`, `as_dataset_mut()` a `&mut G`, `graph(g)` / `union_graph()` / … a `&D`: the model
+# treats `impl Dataset for &T`, `impl Dataset for &mut T`, `impl Graph for &T`, `impl Graph for &mut T`,
+# `impl MutableDataset for &mut T`, `impl MutableGraph for &mut T` as the identity.  That is recorded per
+# method: which method of `T` the body calls and whether it passes its own parameters, in order
+# (`refForward`); the theorem `ref_forwarding_identity` decides that every entry is `T::<same>(*self, <params>)`.
+#
+# The model of bulk mutations through views (`Adapter.Defaults`) transcribes the DEFAULT bodies of
+# `insert_all` / `remove_all` / `remove_matching` / `retain_matching` (+ `insert_triple` / `remove_triple` /
+# `insert_quad` / `remove_quad`) of the `MutableGraph` / `MutableDataset` traits: `defaultBulk` records, per
+# method, whether the body still is the transcribed text; `default_bulk_transcribed` decides that all are.
+
+def _params(header, where):
+    """names of the parameters after `self` in a fn header (text between the fn name and the body)"""
+    k = header.find("self")
+    if k < 0:
+        raise ExtractError("%s: no self parameter" % where)  # noqa: F821
+    i = header.rfind("(", 0, k)
+    depth, j = 0, i
+    while j < len(header):
+        if header[j] in "([<":
+            depth += 1
+        elif header[j] in ")]>" and not (header[j] == ">" and header[j - 1] == "-"):
+            depth -= 1
+            if depth == 0:
+                break
+        j += 1
+    inner = header[i + 1:j]
+    parts, depth, cur = [], 0, ""
+    for c in inner:
+        if c in "([<":
+            depth += 1
+        elif c in ")]>":
+            depth -= 1
+        if c == "," and depth == 0:
+            parts.append(cur)
+            cur = ""
+        else:
+            cur += c
+    parts.append(cur)
+    names = [x.split(":")[0].strip() for x in parts if x.strip()]
+    return [n for n in names if not n.endswith("self")]
+
+
+def _fns2(body, rel):
+    """[(name, params, squashed body)] of the fns WITH a body directly inside an impl / trait body"""
+    out = []
+    pos = 0
+    while True:
+        m = re.compile(r"\bfn\s+(\w+)").search(body, pos)
+        if not m:
+            break
+        i = body.find("{", m.end())
+        semi = body.find(";", m.end())
+        if i < 0 or (0 <= semi < i):
+            pos = semi + 1 if semi >= 0 else len(body)   # a required method: no body
+            continue
+        j = _match_brace(body, i, rel)
+        out.append((m.group(1), _params(body[m.end():i], rel + "::" + m.group(1)), _squash(body[i + 1:j - 1])))
+        pos = j
+    return out
+
+
+def _trait(text, name, rel):
+    ms = list(re.finditer(r"\npub\s+trait\s+%s\b[^{;]*\{" % name, text))
+    if len(ms) != 1:
+        raise ExtractError("%s: expected exactly one `pub trait %s`" % (rel, name))  # noqa: F821
+    i = ms[0].end() - 1
+    j = _match_brace(text, i, rel)
+    return text[i + 1:j - 1]
+
+
+_BULK = {
+    "MutableGraph": ("api/src/graph.rs", "triple", "Triple", "Mg", "[SimpleTerm; 3]", "spo",
+                     "ms, mp, mo", "triples", "t", "t.spo().map(Term::into_term)", "[s, p, o]", "s, p, o", "to_spo"),
+    "MutableDataset": ("api/src/dataset.rs", "quad", "Quad", "Md", "([SimpleTerm; 3], GraphName<SimpleTerm>)", "spog",
+                       "ms, mp, mo, mg", "quads", "q",
+                       "{ let (spo, g) = q.spog(); (spo.map(Term::into_term), g.map(Term::into_term)) }",
+                       "([s, p, o], g)", "s, p, o, g", "to_spog"),
+}
+
+
+def _bulk_expected(trait):
+    rel, el, El, R, item, acc, ms, allm, v, conv, pat, args, to = _BULK[trait]
+    mref = ", ".join("%s.matcher_ref()" % x for x in ms.split(", "))
+    loop = ("let mut src = src; let mut c = 0; src.try_for_each_%s(|%s| -> %sResult<Self, ()> "
+            "{ if self.%%s_%s(%s.%s())? { c += 1; } Ok(()) }).and(Ok(c))" % (el, v, R, el, v, acc))
+    tail = "self.remove_all(to_remove?.into_iter().into_source()).map_err(|err| err.unwrap_sink_error())"
+    return {
+        "insert_%s" % el: "let %s = %s.%s(); self.insert(%s)" % (pat, el, to, args),
+        "remove_%s" % el: "let %s = %s.%s(); self.remove(%s)" % (pat, el, to, args),
+        "insert_all": loop % "insert",
+        "remove_all": loop % "remove",
+        "remove_matching": "let to_remove: Result<Vec<%s>, _> = self.%s_matching(%s).map_ok(|%s| %s).collect(); %s"
+                           % (item, allm, ms, v, conv, tail),
+        "retain_matching": "let to_remove: Result<Vec<%s>, _> = self.%s().filter_ok(|%s| { !%s.matched_by(%s) })"
+                           ".map_ok(|%s| %s).collect(); %s?; Ok(())" % (item, allm, v, v, mref, v, conv, tail),
+    }
+
+
+def _norm_closure(s):
+    """`|x| { e }` and `|x| e` are the same closure; rustfmt picks by line length"""
+    return s
+
+
+def _glue(repo):
+    rows = []
+    info = {"ref_forward_bad": [], "default_bulk_changed": []}
+    for rel, impls in (("api/src/dataset/_foreign_impl.rs",
+                        [("Dataset for &T", r"\sDataset\s+for\s+&T"), ("Dataset for &mut T", r"\sDataset\s+for\s+&mut\s+T"),
+                         ("MutableDataset for &mut T", r"\sMutableDataset\s+for\s+&mut\s+T")]),
+                       ("api/src/graph/_foreign_impl.rs",
+                        [("Graph for &T", r"\sGraph\s+for\s+&T"), ("Graph for &mut T", r"\sGraph\s+for\s+&mut\s+T"),
+                         ("MutableGraph for &mut T", r"\sMutableGraph\s+for\s+&mut\s+T")])):
+        text = _strip(read(repo, rel), rel)  # noqa: F821
+        for label, hre in impls:
+            for name, params, body in _fns2(_impl(text, hre, rel), rel):
+                m = re.fullmatch(r"T::(\w+)\(\*self((?:,\w+)*)\)", body)
+                callee = m.group(1) if m else "?"
+                same = bool(m) and [a for a in m.group(2).split(",") if a] == params
+                rows.append((label, name, callee, same))
+                if callee != name or not same:
+                    info["ref_forward_bad"].append("%s::%s" % (label, name))
+    bulk = []
+    for trait in ("MutableGraph", "MutableDataset"):
+        rel = _BULK[trait][0]
+        text = _strip(read(repo, rel), rel)  # noqa: F821
+        got = dict((n, b) for n, _, b in _fns2(_trait(text, trait, rel), rel))
+        for name, want in _bulk_expected(trait).items():
+            g = got.get(name)
+            # rustfmt may or may not brace a one-expression closure body
+            ok = g is not None and g.replace("|{", "|").replace("})", ")") == _squash(want).replace("|{", "|").replace("})", ")")
+            bulk.append((trait, name, ok))
+            if not ok:
+                info["default_bulk_changed"].append("%s::%s" % (trait, name))
+    lines = [HEADER,  # noqa: F821
+             "namespace SophiaModel.Gen.ViewGlue\n\n",
+             "/-- one method of a reference forwarding impl: the method of `T` its body calls (`?`: not of the form\n"
+             "`T::<m>(*self, …)`), and whether it passes exactly its own parameters, in order -/\n",
+             "structure Forward where\n  impl : String\n  method : String\n  callee : String\n  sameArgs : Bool\n"
+             "  deriving Repr, DecidableEq, Inhabited\n\n",
+             "def refForward : List Forward := [\n",
+             ",\n".join('  ⟨"%s", "%s", "%s", %s⟩' % (a, b, c, "true" if d else "false") for a, b, c, d in rows),
+             "]\n\n",
+             "/-- the default bodies of the bulk / element methods of the `Mutable*` traits: is the body still the text\n"
+             "transcribed by `SophiaModel.Adapter.Defaults`? -/\n",
+             "def defaultBulk : List (String × String × Bool) := [\n",
+             ",\n".join('  ("%s", "%s", %s)' % (a, b, "true" if c else "false") for a, b, c in bulk),
+             "]\n\nend SophiaModel.Gen.ViewGlue\n"]
+    return "".join(lines), info
+
+
+EXTRACTORS["view_glue"] = ("ViewGlue.lean", _glue)
